@@ -426,3 +426,20 @@ PROPS["C19"]["trusted_extra"] = [t.replace("state.FlagDebugger (struct with a ma
 PROPS["C19"]["assumptions"] = PROPS["C19"]["assumptions"] + ["sessions that share a filesystem state directory have distinct session ids (distinct records); the directory is written by this process only"]
 PROPS["C18"]["prop_files"] = PROPS["C18"]["prop_files"] + ["props/C18kept.v"]
 PROPS["C18"]["files"] = list(dict.fromkeys(PROPS["C18"]["files"] + ["proofs/KeptProofs.v", "props/C18kept.v"]))
+
+# C16: the command's flag preprocessor (agent asm follow-up 2)
+ASM_MODEL = ASM_MODEL[:-1] + ["model/AsmPreModel.v", ASM_MODEL[-1]] if "model/AsmPreModel.v" not in ASM_MODEL else ASM_MODEL
+PROPS["C16"]["model_files"] = ASM_MODEL
+PROPS["C16"]["files"] = list(dict.fromkeys(PROPS["C16"]["files"] + ["proofs/AsmPreProofs.v", "props/C16pre.v"]))
+PROPS["C16"]["prop_files"] = ["props/C16.v", "props/C16pre.v"]
+PROPS["C16"]["rule"] = PROPS["C16"]["rule"] + " + every corpus/example source and every 7th generated one also through the shipped dev/asm command (case kind ACmd: standard output, exit status)" + " + the shipped command with its flag preprocessor (asm -f table.csv file; case kind APre: standard output and exit status): the repository's examples/preprocessor/*.vis with pp.csv, 33 fixed cases (names, numerals, unknown names, missing arguments that make processFlag dereference nil, a third token after CROAK, 010/00/1a/*/2^64-size numerals as flag, tables with a leading-zero or signed or too small or non-numeric number, short rows, non-flag rows, a name defined twice, numerals as names, the empty table) and n/3 generated cases: tables of 2-5 distinct names over the symbol alphabet with numbers 8..40, sometimes a description column; documented-form sources (as above) whose CATCH/CROAK flag is a name of the table (70%), an undefined name, a numeral or an odd token, at least one such line per source, all other instruction kinds and batch lines passed through; every 7th table spoilt by one malformed/unusual row; every 5th source adversarial"
+PROPS["C16"]["assumptions"] = [a for a in PROPS["C16"]["assumptions"] if not a.startswith("flag-name preprocessing")] + ["the flag preprocessor (asm/flag.go Load/GetAsString, dev/asm/main.go processor.run) is modelled from the CSV records on (encoding/csv itself — quoting, separators, blank lines — is outside; generated fields contain no quote, comma, line break or leading blank); the preprocessor's participle grammar (NumFirst/Sym tokens, at most three) and strconv.Atoi are modelled, not verified"]
+
+# C04 (agent routing follow-up 2) and C08 (agent safety follow-up): rewinds and continuation
+PROPS["C04"]["prop_files"] = PROPS["C04"]["prop_files"] + ["props/C04reset.v"]
+PROPS["C04"]["files"] = list(dict.fromkeys(PROPS["C04"]["files"] + ["proofs/RoutingProofs2.v", "props/C04reset.v"]))
+PROPS["C08"]["prop_files"] = PROPS["C08"].get("prop_files", [PROPS["C08"]["prop_file"]]) + ["props/C08cont.v"]
+PROPS["C08"]["files"] = list(dict.fromkeys(PROPS["C08"]["files"] + ["proofs/ContinueProofs.v", "props/C08cont.v"]))
+
+PROPS["C06"]["rule"] = PROPS["C06"]["rule"] + (" || engine driver under C06: every application/history is served a second time with every request for a flag <= FLAG_RESERVED removed from the functions' "
+    "FlagSet/FlagReset lists (metamorphic twin, case pair mkE17): responses, stored sessions and calls of the two runs must be identical (engine_violations_c06x)")
